@@ -30,6 +30,14 @@ CHECKS = {
    text="Resp.tla models building a response (constructor with options, setters) and writing it, several per request; TLC explores the builder state machine (TagOK, CtlsOnlyWhereSettable, WritesAppendOnly) and emits every constructor x every sequence of <=2 option tokens x every well-typed setter sequence plus multi-response scripts (39k quick, more thorough). A real handler interprets each script with the public API and writes; the harness's strict LDAPMessage parser reads the frames; TLC (RespTrace) checks one frame per Write with the request's message id, the tag, the fields that were set, entry attributes (map part unordered, AddAttribute part ordered) and controls against Build() of the spec.",
    note="Trusts: data independence in string/number content beyond the boundary symbols; message ids chosen >= 5,000,000 so they never coincide with the per-connection request counter; unsupported options are treated as don't-care.",
    technique="TLA+ spec Resp.tla model-checked with TLC; TLC-generated builder scripts executed in a real handler; frames parsed strictly and validated by TLC trace spec RespTrace"),
+"C01": dict(level=MC, design="DESIGN.md §3.4, §7 C01",
+   text="Ber.tla/Req.tla define abstract BER trees, the RFC 4511 encoding of every supported request (EncodeRequest) and a transcription of gldap's request decoding (DecodeReq: envelope and LDAPv3 gates, per-operation positional decode, control decode). TLC checks DecodeReq(EncodeRequest(r)) = r for about 2,000 (thorough: 9,000) requests - per operation the product of field alphabets, every request control alone and in pairs in both orders, unsupported operations and bind versions other than 3 (rejected). Each tree is serialised by the harness's own BER encoder, sent to a real server on its own connection, and the handler reports Request.Get*Message() field by field; TLC (ReqTrace) checks Delivered / Answered / NotDelivered on every observation.",
+   note="Trusts: data independence of copied fields (strings concretised per seed as empty/binary/non-ASCII/128..65536-byte values, ids as 0/boundary/2^31-1/random); the filter corpus of 12 shapes compared by recompilation; go-ldap's compiler for the filter bytes.",
+   technique="TLA+ specs Ber.tla/Req.tla checked with TLC (encode/decode round trip); TLC-generated request trees serialised and sent to the real server; handler observations validated by TLC trace spec ReqTrace"),
+ "C02": dict(level=MC, design="DESIGN.md §3.4, §7 C02, §9",
+   text="TLC checks that DecodeReq is total (TotalOn) on the complete set of single-point mutants (12 replacement node kinds at every node, delete / duplicate / swap / append / empty-content) of 10 canonical request trees covering every operation and control family, and emits them with the predicted outcome. Every mutant - plus truncation at every byte offset, 13 corruptions of every length octet and seeded random flips/bodies of short canonical frames - is sent on its own connection to (a) a worker subprocess with WithDisablePanicRecovery and a debug-level logger (a panic kills it; stderr names the site) and (b) an in-process server with recovery and an error-level log sink ('Caught panic'). TLC (ReqTrace02) checks the outcome alphabet and that recovery does not change the outcome. The byte-level part is exploration (see DESIGN §9).",
+   note="Trusts: process exit / log record as the panic observable; crashes without a gldap frame on the stack (inside a dependency) are reported separately; declared lengths capped at 1 MiB.",
+   technique="TLA+ specs Ber.tla/Req.tla: TLC-enumerated complete single-point mutants of request trees with predicted decode outcome, executed against the real server in a crash-detecting subprocess; outcomes validated by TLC trace spec ReqTrace02; driver-generated byte-level corruptions"),
 }
 NOT_YET = "check not built yet (work in progress)"
 
